@@ -255,10 +255,14 @@ impl Debug for NetworkAddress {
                 "NetworkAddress::RegisterAddress({} - ",
                 &register_address.to_hex()[0..6]
             ),
-            NetworkAddress::RecordKey(bytes) => format!(
-                "NetworkAddress::RecordKey({} - ",
-                &PrettyPrintRecordKey::from(&RecordKey::new(bytes)).no_kbucket_log()[0..6]
-            ),
+            NetworkAddress::RecordKey(bytes) => {
+                // a raw record key can be shorter than three bytes
+                let hex = PrettyPrintRecordKey::from(&RecordKey::new(bytes)).no_kbucket_log();
+                format!(
+                    "NetworkAddress::RecordKey({} - ",
+                    hex.get(0..6).unwrap_or(&hex)
+                )
+            }
         };
         write!(
             f,
